@@ -2,7 +2,7 @@
 """Summary numbers over /verif/seeded/*/meta.json (for DESIGN.md section 12)."""
 import json, collections
 from pathlib import Path
-rounds = {range(1, 10): 1, range(11, 20): 2, range(21, 30): 3, range(31, 40): 4, range(41, 50): 5, range(51, 60): 6, range(61, 70): 7, range(71, 80): 8}
+rounds = {range(1, 10): 1, range(11, 20): 2, range(21, 30): 3, range(31, 40): 4, range(41, 50): 5, range(51, 60): 6, range(61, 70): 7, range(71, 80): 8, range(81, 90): 9}
 stat = collections.Counter()
 per_round = collections.defaultdict(collections.Counter)
 lists = collections.defaultdict(list)
